@@ -26,6 +26,7 @@ func init() {
 			ruleErrChainC14(r)
 			ruleDaemonLog(r)
 			ruleErrSticky(r, []string{dockerlogPkg, enginePkg, metricPkg, itersPkg, lexerPkg}, 1)
+			rulePFDeferNil(r, []string{enginePkg, metricPkg, dockerlogPkg, cmdPkg})
 		},
 	})
 }
